@@ -13,7 +13,7 @@ mod util;
 fn setup() {
     // the decision log is parsed as plain text
     unsafe { std::env::set_var("NO_COLOR", "1") };
-    vcommon::install_quiet_panic_hook();
+    util::install_panic_hooks();
     // libtest prints "test <name> ... " without a newline; JSON lines must start a line
     println!();
 }
